@@ -22,6 +22,10 @@ def queries(tier):
     if tier == "thorough":
         qs.append(Query("encode_decode_n8", "C15_huffman.cpp", "h_encode_decode", {"NSYM": 8}, unwind=8 * 8 + 20, timeout=1800,
                         desc="encoder/decoder agreement on an arbitrary valid tree of 8 symbols (measured 250 s)"))
+    # code lengths beyond 16 bits need at least 18 symbols: deepest shape only (which side each inner node sits on, symbols and counts symbolic)
+    for n in ((18,) if tier == "quick" else (18, 20, 24)):
+        qs.append(Query("encode_decode_chain_n%d" % n, "C15_huffman.cpp", "h_encode_decode", {"NSYM": n, "CHAIN": 1}, unwind=8 * n + 20, timeout=1800,
+                        desc="encoder/decoder agreement on every valid tree of %d symbols of the deepest shape (code lengths up to %d bits), sides, symbols and counts symbolic" % (n, n - 1)))
     n = 3
     for r, rn in enumerate(["update at root count 65535", "out-of-range symbol in UpdateCodeCount", "out-of-range symbol in GetEncodedBitString", "out-of-range node in GetChildNode/IsLeaf/GetNodeData"]):
         qs.append(Query("refuse_%d_n%d" % (r, n), "C15_huffman.cpp", "h_refuse", {"NSYM": n, "REFUSE": r}, unwind=4 * n + 8, timeout=900,
